@@ -1,9 +1,12 @@
 """Well-formed but ill-typed programs: every kind of symbol / expression (SYMS) placed in every kind of
 position (CTX) after a common header. Used by C07 (quick: a seeded sample plus the pinned pairs; thorough: all)."""
 HEAD = "from typing import TypeAlias, TypeVar, Generic\n\nT = TypeVar('T')\nA: TypeAlias = int\nx: int = 1\n\ndef f(a: int) -> int:\n\treturn a\n\nclass K:\n\tn: int = 0\n\tdef m(self) -> int:\n\t\treturn 1\n\nclass B(Generic[T]):\n\tdef g(self, v: T) -> T:\n\t\treturn v\n\n"
-SYMS = ['super()', 'K.m()', 'B[int]()', 'x.y', '...', 'True', '-x', 'not x', 'x if x else K', '{1: 2}', '[1]', '(1,)', 'range(3)', 'str', 'list', 'dict', 'list[int]', 'dict[str, int]', 'tuple[int, str]', 'Callable', 'Callable[[int], int]', 'int | None', 'int | str', "'K'", 'type[K]', 'Enum', 'self', 'K.Missing', 'B[Missing]', 'B[T]', 'f.a', 'x[0]', 'A()', 'T()', 'len.y',
+SYMS = ['__actual__', '__actual__()', "__actual__('x')", 'Embed.alias', "Embed.alias('a')", 'Embed.prop', "Embed.prop('p')", 'Embed.static', 'Embed.mutable', 'Embed.ignore', 'Embed.meta', 'staticmethod', 'classmethod', 'property', 'abstractmethod',
+ 'foo.Bar', 'K.Missing.y', 'typing.List', 'mx_mod.K', 'mx_mod',
+ 'super()', 'K.m()', 'B[int]()', 'x.y', '...', 'True', '-x', 'not x', 'x if x else K', '{1: 2}', '[1]', '(1,)', 'range(3)', 'str', 'list', 'dict', 'list[int]', 'dict[str, int]', 'tuple[int, str]', 'Callable', 'Callable[[int], int]', 'int | None', 'int | str', "'K'", 'type[K]', 'Enum', 'self', 'K.Missing', 'B[Missing]', 'B[T]', 'f.a', 'x[0]', 'A()', 'T()', 'len.y',
  'len', 'print', 'int', 'T', 'A', 'f', 'K', 'x', 'B', 'B[int]', 'K.m', 'K.n', 'Missing', 'f(1)', 'K()', '1', "'s'", 'None', 'TypeVar', '[T]', '(K, K)', 'lambda: 1']
 CTX = {
+ 'deco-class': '@%s\nclass Z: ...\n', 'deco-method': 'class Z:\n\t@%s\n\tdef g(self) -> int: ...\n', 'deco-call': '@%s()\ndef g() -> None: ...\n', 'self-import': 'from mx_mod import %s\n', 'import-from': 'from %s import y\n', 'except-anno': 'def g() -> None:\n\ttry:\n\t\tpass\n\texcept RuntimeError as e:\n\t\tw: %s = e\n',
  'cls-anno': 'class Z:\n\tv: %s\n', 'cls-var': 'class Z:\n\tv: int = %s\n', 'method-param': 'class Z:\n\tdef g(self, a: %s) -> None: ...\n', 'self-attr': 'class Z:\n\tdef __init__(self) -> None:\n\t\tself.v: %s = 1\n',
  'self-assign': 'class Z:\n\tdef __init__(self) -> None:\n\t\tself.v = %s\n', 'lambda-body': 'v = lambda: %s\n', 'call-arg': 'v = f(%s)\n', 'kw-arg': 'v = f(a=%s)\n', 'index-key': 'def g(d: dict[str, int]) -> int:\n\treturn d[%s]\n',
  'slice': 'def g(d: list[int]) -> list[int]:\n\treturn d[%s:]\n', 'ternary-cond': 'v = 1 if %s else 2\n', 'while': 'def g() -> None:\n\twhile %s:\n\t\tpass\n', 'assert': 'def g() -> None:\n\tassert %s\n', 'star-arg': 'v = f(*%s)\n',
@@ -17,7 +20,7 @@ CTX = {
 }
 
 # pairs that exhibited an escaping exception once (repaired defects and seeded changes): on every run
-PINNED = [('sub-anno', 'None'), ('param', 'None[int]'), ('anno', 'len'), ('param', 'print'), ('anno', 'T'), ('anno', 'A'), ('base', '[T]'), ('anno-plain', '[T]')]
+PINNED = [('deco', '__actual__()'), ('deco-class', '__actual__'), ('anno', 'foo.Bar'), ('param', 'foo.Bar'), ('self-import', 'K'), ('sub-anno', 'None'), ('param', 'None[int]'), ('anno', 'len'), ('param', 'print'), ('anno', 'T'), ('anno', 'A'), ('base', '[T]'), ('anno-plain', '[T]')]
 
 
 def program(ctx_name: str, sym: str) -> str:
